@@ -11,7 +11,10 @@
                                   `edit`: recorded library proofs replayed step by step on real ProofState objects (live / on a
                                   copy), seeded random walks of up to 4 further operations, ProofCache, and GENERATED editing
                                   sessions on generated goals (sibling scopes binding one name at different types, several
-                                  exists_elim in one scope on copies, a cut cited from a later subproof then merged away, walks)
+                                  exists_elim in one scope on copies, a cut cited from a later subproof then merged away,
+                                  exists_elim with 1-3 names on nested existentials / across subproof lines / after a later
+                                  elimination, introduction of an antecedent that an earlier line already states, facts with a
+                                  typed beta-redex, closed arithmetic goals at nat, walks)
  T   spec/C13_EditorTrace.tla   after EVERY completed operation: Contiguous, CitationsVisibleEarlier, LastLineIsGoal, RecheckSucceeds,
                                 GapsAreExactlySorries, GoalPreserved, NoGapsAccepted, ExportImport, CopyIsolated; HistoryIntact;
                                 line edits: Contiguous, CitationsTrackItems, NoDangling, CopyIsolated (divergence: code /= spec)
@@ -29,7 +32,8 @@ from harness.core import (MachineryError, REPO, model_check, read_events, requir
 # (the recorded proof of `trivial` needs the theorem `trivial`); the property quantifies over theories that contain it
 QUICK_THEORIES = ["logic", "set"]
 MORE = ["nat", "function", "list", "int", "real", "expr", "hoare"]
-SHAPES = ["sibling-binders", "exists-twice", "cut-merged"]
+SHAPES = ["sibling-binders", "exists-twice", "cut-merged", "exists-nested", "intro-known", "redex-fact", "closed-arith"]
+NGEN = 8        # generators of sessions in harness/drivers/c13.py (one of them: free walks)
 LE_OFFSET = 10 ** 6
 
 
@@ -64,10 +68,10 @@ def run(rep, tier):
     theories = list(QUICK_THEORIES)
     if quick:
         theories.append(rnd.choice(MORE[:5]))
-        n_per, nsess, max_steps = 8, 36, 20        # quick: sampled theorems with at most 20 recorded steps
+        n_per, nsess, max_steps = 8, 64, 20        # quick: sampled theorems with at most 20 recorded steps
     else:
         theories += MORE
-        n_per, nsess, max_steps = 60, 600, 0
+        n_per, nsess, max_steps = 60, 800, 0
     evp = wd / "edit.ndjson"
     # the library / session driver runs while TLC works on the line-edit layer
     pool = ThreadPoolExecutor(max_workers=1)
@@ -142,9 +146,10 @@ def run(rep, tier):
     sess = {}
     for e in evs:
         if e.get("session") and e.get("done"):
-            d = sess.setdefault(e["shape"], {"completed": 0, "shape_occurred": 0})
+            d = sess.setdefault(e["shape"].split(":")[0], {"completed": 0, "shape_occurred": 0, "variants": {}})
             d["completed"] += 1
             d["shape_occurred"] += 1 if e.get("shape_ok") else 0
+            d["variants"][e["shape"]] = d["variants"].get(e["shape"], 0) + 1
     rep.notes["generated_sessions"] = {"asked": nsess, "by_shape": sess,
                                        "events": sum(1 for e in evs if e.get("session")),
                                        "walk_events": sum(1 for e in evs if e["kind"] == "edit" and e["route"].startswith("walk"))}
@@ -202,7 +207,8 @@ def run(rep, tier):
     require(nle >= (3000 if quick else 30000), "C13: too few completed line edits (vacuity guard): %d of %d" % (nle, len(les)))
     require(all(rep.notes["lineedit_ops"][op] >= 100 for op in rep.notes["lineedit_ops"]), "C13: a line-edit action is hardly exercised: %s" % rep.notes["lineedit_ops"])
     done = sum(d["completed"] for d in sess.values())
-    require(done >= (nsess * 3 // 4) * 2 // 3, "C13: too few generated sessions completed: %d of %d scripted" % (done, nsess * 3 // 4))
+    scripted = nsess * (NGEN - 1) // NGEN
+    require(done >= scripted * 3 // 5, "C13: too few generated sessions completed: %d of %d scripted" % (done, scripted))
     for sh in SHAPES:
         require(sess.get(sh, {}).get("shape_occurred", 0) >= (3 if quick else 30),
                 "C13: the session shape %s did not really occur often enough: %s" % (sh, sess.get(sh)))
